@@ -3,6 +3,7 @@ CONSTANTS
   Locators = {"l1", "l2", "l3", "l4"}
   DEVIATIONS = {"S12", "S13", "S14", "S15", "S16", "S18", "S19"}
   MINB = 240
-  SLACK = 4000
+  SLACK = 2500
+  CAP = 5000
 SPECIFICATION Spec
 CHECK_DEADLOCK FALSE
